@@ -704,3 +704,169 @@ def bmat(blocks, format=None, dtype=None):
     if format == "csr":
         return out.tocsr()
     raise Unsupported(f"bmat format {format}")
+
+
+# ------------------------------------------------------------------------------------------------ kron / identity / BSR
+class bsr_array(_Base):
+    """scipy's block format as `kron` produces it: every stored block keeps ALL its R x C entries (explicit zeros included).  Like scipy's,
+    it has no `.row` / `.col` (AttributeError), adding another sparse matrix gives a BSR of the same block size again (zero blocks
+    dropped), and the conversions hand out the explicit zeros."""
+    format = "bsr"
+
+    def __init__(self, blocks, blocksize, shape):
+        self.blocks = {k: np.asarray(_strip(v), dtype=object) for k, v in blocks.items()}
+        self.blocksize = (int(blocksize[0]), int(blocksize[1]))
+        self.shape = (int(shape[0]), int(shape[1]))
+
+    def __getattr__(self, nm):
+        if nm in ("row", "col"):
+            raise AttributeError(f"'bsr_array' object has no attribute '{nm}'")
+        return _Base.__getattr__(self, nm)
+
+    def _keys(self):
+        return sorted(self.blocks)
+
+    @property
+    def data(self):
+        ks = self._keys()
+        return sarr([self.blocks[k].tolist() for k in ks]) if ks else np.zeros((0,) + self.blocksize, dtype=object).view(SArr)
+
+    @property
+    def indices(self):
+        return np.array([k[1] for k in self._keys()], dtype=int)
+
+    @property
+    def indptr(self):
+        p = np.zeros(self.shape[0] // self.blocksize[0] + 1, dtype=int)
+        for k in self._keys():
+            p[k[0] + 1] += 1
+        return np.cumsum(p)
+
+    @property
+    def nnz(self):
+        return len(self.blocks) * self.blocksize[0] * self.blocksize[1]
+
+    def copy(self):
+        return bsr_array({k: v.copy() for k, v in self.blocks.items()}, self.blocksize, self.shape)
+
+    def toarray(self):
+        out = np.zeros(self.shape, dtype=object)
+        out[...] = 0.0
+        R, C = self.blocksize
+        for (bi, bj), blk in self.blocks.items():
+            out[bi * R:(bi + 1) * R, bj * C:(bj + 1) * C] = blk
+        return out.view(SArr)
+
+    def todense(self):
+        return self.toarray()
+
+    def tocoo(self, copy=False):
+        R, C = self.blocksize
+        data, row, col = [], [], []
+        for (bi, bj) in self._keys():            # block-row major, entries of a block row-major, explicit zeros kept
+            blk = self.blocks[(bi, bj)]
+            for a in range(R):
+                for b in range(C):
+                    data.append(blk[a, b]); row.append(bi * R + a); col.append(bj * C + b)
+        return coo_array((sarr(data) if data else np.zeros(0, dtype=object).view(SArr), (row, col)), shape=self.shape)
+
+    def tocsr(self, copy=False):
+        c = self.tocoo()
+        order = sorted(range(len(c.data)), key=lambda k: (int(c.row[k]), int(c.col[k])))
+        return csr_array._from_sorted([c.data[k] for k in order], [c.row[k] for k in order], [c.col[k] for k in order], self.shape)
+
+    def tocsc(self, copy=False):
+        return self.tocsr().tocsc()
+
+    def tobsr(self, *a, **k):
+        return self
+
+    def _scale(self, s):
+        if isinstance(s, np.ndarray):
+            if s.size != 1:
+                raise Unsupported("sparse model: only scalar multiplication of a bsr matrix is modelled")
+            s = s.reshape(-1)[0]
+        return bsr_array({k: (v * s) for k, v in self.blocks.items()}, self.blocksize, self.shape)
+
+    def sum(self, axis=None):
+        return self.tocsr().sum(axis)
+
+    @property
+    def T(self):
+        return bsr_array({(k[1], k[0]): v.T.copy() for k, v in self.blocks.items()}, self.blocksize[::-1], self.shape[::-1])
+
+    def __add__(self, o):
+        if isinstance(o, DenseBacked) or not isinstance(o, _Base):
+            raise Unsupported("sparse model: bsr + dense / dense-backed")
+        if tuple(o.shape) != self.shape:
+            raise ValueError("inconsistent shapes")
+        R, C = self.blocksize
+        blocks = {k: v.copy() for k, v in self.blocks.items()}
+        oc = o if isinstance(o, bsr_array) and o.blocksize == self.blocksize else None
+        if oc is not None:
+            other = {k: v for k, v in oc.blocks.items()}
+        else:
+            other = {}
+            c = o.tocoo()
+            for v, i, j in zip(c.data, c.row, c.col):
+                k = (int(i) // R, int(j) // C)
+                if k not in other:
+                    other[k] = np.zeros((R, C), dtype=object)
+                    other[k][...] = 0.0
+                other[k][int(i) % R, int(j) % C] = other[k][int(i) % R, int(j) % C] + _tofloat(v)
+        for k, blk in other.items():
+            blocks[k] = (blocks[k] + blk) if k in blocks else blk
+        # scipy's block binop drops blocks that are zero throughout
+        keep = {k: v for k, v in blocks.items() if any(_nz(x) for x in v.flat)}
+        return bsr_array(keep, self.blocksize, self.shape)
+
+    __radd__ = __add__
+
+    def asformat(self, fmt):
+        return {"coo": self.tocoo, "csr": self.tocsr, "csc": self.tocsc, "bsr": lambda: self, None: lambda: self}[fmt]()
+
+
+def identity(n, dtype="d", format=None):
+    """scipy.sparse.identity: ones on the diagonal (scipy hands out the dia format by default; only its entries matter to the targets)"""
+    n = int(n)
+    one = True if dtype in (bool, np.bool_, "bool") else 1.0
+    m = coo_array((sarr([one] * n) if n else np.zeros(0, dtype=object).view(SArr), (list(range(n)), list(range(n)))), shape=(n, n))
+    if format in (None, "dia"):
+        m.format = "dia"
+        return m
+    return m.asformat(format)
+
+
+def eye(m, n=None, k=0, dtype=float, format=None):
+    if (n is not None and n != m) or k != 0:
+        raise Unsupported("sparse model: only square eye() without offset")
+    return identity(m, dtype=dtype, format=format)
+
+
+def kron(A, B, format=None):
+    """scipy.sparse.kron, including its BSR shortcut: when B is at least half full (2 nnz >= rows cols) and no other format is asked
+    for, the result is a BSR matrix whose blocks are a_ij * B.toarray() -- the zeros of B become STORED entries"""
+    Bc = B.tocoo() if isinstance(B, _Base) else coo_array(B)
+    Ain = A if isinstance(A, _Base) else coo_array(A)
+    if isinstance(Ain, DenseBacked) or isinstance(Bc, DenseBacked):
+        raise Unsupported("sparse model: kron of pattern-abstract matrices")
+    out_shape = (Ain.shape[0] * Bc.shape[0], Ain.shape[1] * Bc.shape[1])
+    nnzB = len(Bc.data)
+    if format in (None, "bsr") and 2 * nnzB >= Bc.shape[0] * Bc.shape[1]:
+        Acsr = Ain.tocsr()
+        if len(Acsr.data) == 0 or nnzB == 0:
+            return coo_array((np.zeros(0, dtype=object).view(SArr), ([], [])), shape=out_shape).asformat(format if format != "bsr" else None)
+        Bd = np.asarray(Bc.toarray().view(np.ndarray), dtype=object)
+        blocks = {}
+        for v, i, j in Acsr._triples():
+            blocks[(int(i), int(j))] = np.asarray(_tofloat(v) * Bd, dtype=object)
+        return bsr_array(blocks, Bc.shape, out_shape)
+    Ac = Ain.tocoo()
+    data, row, col = [], [], []
+    for a, i, j in zip(Ac.data, Ac.row, Ac.col):
+        for b, k, l in zip(Bc.data, Bc.row, Bc.col):
+            data.append(_tofloat(a) * _tofloat(b))
+            row.append(int(i) * Bc.shape[0] + int(k))
+            col.append(int(j) * Bc.shape[1] + int(l))
+    r = coo_array((sarr(data) if data else np.zeros(0, dtype=object).view(SArr), (row, col)), shape=out_shape)
+    return r.asformat(format)
